@@ -4,8 +4,13 @@ import json, os, sys, glob, importlib
 ROOT = os.path.dirname(os.path.dirname(os.path.abspath(__file__)))
 sys.path.insert(0, os.path.join(ROOT, 'tools'))
 props = []
+_claimed = set(json.load(open(os.path.join(ROOT, 'tools', 'claimed.json'))))
 for p in sorted(glob.glob(os.path.join(ROOT, 'tools', 'props', 'c[0-9]*.py'))):
-    props.append(importlib.import_module('props.' + os.path.basename(p)[:-3]))
+    if os.path.basename(p)[:-3].upper() in _claimed:
+        props.append(importlib.import_module('props.' + os.path.basename(p)[:-3]))
+claimed_file = os.path.join(ROOT, 'tools', 'claimed.json')
+claimed_ids = set(json.load(open(claimed_file)))
+props = [p for p in props if p.ID in claimed_ids and hasattr(p, 'MANIFEST_TEXT')]
 ids = [p.ID for p in props]
 hooks_file = os.path.join(ROOT, 'tools', 'hooks.json')
 hooks = json.load(open(hooks_file)) if os.path.exists(hooks_file) else {'source_commits': []}
